@@ -270,6 +270,8 @@ def _cases() -> List[Tuple[str, str, tuple, dict, Any]]:
         ("collect_type_params(Generic[S, T])", "collect_type_params", (typing.Generic[S, T],), {}, v([S, T])),
         ("collect_type_params(Tuple[T, T])", "collect_type_params", (typing.Tuple[T, T],), {}, v([T])),
         ("collect_type_params(Tuple[T, List[T], S])", "collect_type_params", (typing.Tuple[T, typing.List[T], S],), {}, v([T, S])),
+        ("collect_type_params(Tuple[List[T], S])", "collect_type_params", (typing.Tuple[typing.List[T], S],), {}, v([T, S])),
+        ("collect_type_params(Dict[S, Tuple[List[T], S]])", "collect_type_params", (typing.Dict[S, typing.Tuple[typing.List[T], S]],), {}, v([S, T])),
         ("collect_type_params(int)", "collect_type_params", (int,), {}, v([])),
         ("collect_type_params(Generic[Unpack[Ts]])", "collect_type_params", (typing.Generic[UTs],), {}, v([UTs])),
         ("resolve_type_params(G, (int,))", "resolve_type_params", (_G, (int,)), {}, v({_G: {T: int}, typing.Generic: {}, object: {}})),
